@@ -30,6 +30,19 @@ CHECKS["C03"] = (
     "4 C03",
 )
 
+CHECKS["C04"] = (
+    "schedx",
+    "model_checking",
+    "stateless model checking of the implementation: controlled scheduler over real OS processes, all schedules up to a preemption bound (iterative context bounding) + one injected fault at every fault point",
+    "2..3 real processes with long-lived Collection handles (different spellings of one path, different buffer sizes) run every program tuple of reading()/writing() sessions; a controller "
+    "owns every lock and file action (fasteners trylock/unlock and the library stream are wrapped at run time) and executes EVERY schedule with <= 2 (thorough: 3) preemptions; a second "
+    "family injects one exception at every fault point of a session (body, encoder, n-th file write, close, open). Oracles: file-level writer exclusion monitor, lock compatibility, no "
+    "deadlock, state idle/file closed/lock acquirable by a third process after every session, final contents (fresh reader + independent parser) vs. the records of completed sessions, "
+    "readers see complete committed records only; each reported schedule is replayed and must give the same verdict.",
+    "Scheduling points are Python-level lock/file calls, so preemption inside one call and real multi-core simultaneity are not explored; the OS fcntl lock is trusted; bounded programs (<= 4..5 sessions, 2 records per writer).",
+    "4 C04",
+)
+
 PENDING = {
 }
 
